@@ -4,12 +4,13 @@
 package main
 
 import (
-	"strings"
 	"bufio"
 	"encoding/hex"
 	"encoding/json"
 	"fmt"
 	"os"
+	"strings"
+	"time"
 
 	"math/big"
 
@@ -44,17 +45,40 @@ type EvmReq struct {
 	CallGas uint64 `json:"call_gas,omitempty"`
 }
 type EvmRes struct {
-	Err  string `json:"err"`
-	Ret  string `json:"ret"`
-	Root string `json:"root"`
-	Logs string `json:"logs"`
-	Dump string `json:"dump,omitempty"`
+	Err      string `json:"err"`
+	Ret      string `json:"ret"`
+	Root     string `json:"root"`
+	Logs     string `json:"logs"`
+	Dump     string `json:"dump,omitempty"`
+	InnerOog bool   `json:"inner_oog,omitempty"`
 }
 
 func allForks() *params.ChainConfig {
 	z := new(big.Int)
 	return &params.ChainConfig{ChainID: big.NewInt(1), HomesteadBlock: z, DAOForkBlock: nil, EIP150Block: z, EIP155Block: z, EIP158Block: z,
 		ByzantiumBlock: z, ConstantinopleBlock: z}
+}
+
+// oogTracer notes whether any frame ran out of gas: what follows then depends on how gas is metered
+type oogTracer struct{ oog bool }
+
+func (t *oogTracer) CaptureStart(from common.Address, to common.Address, call bool, input []byte, gas uint64, value *big.Int) error {
+	return nil
+}
+func (t *oogTracer) CaptureState(env *vm.EVM, pc uint64, op vm.OpCode, gas, cost uint64, memory *vm.Memory, stack *vm.Stack, contract *vm.Contract, depth int, err error) error {
+	if err == vm.ErrOutOfGas || err == vm.ErrCodeStoreOutOfGas {
+		t.oog = true
+	}
+	return nil
+}
+func (t *oogTracer) CaptureFault(env *vm.EVM, pc uint64, op vm.OpCode, gas, cost uint64, memory *vm.Memory, stack *vm.Stack, contract *vm.Contract, depth int, err error) error {
+	if err == vm.ErrOutOfGas || err == vm.ErrCodeStoreOutOfGas {
+		t.oog = true
+	}
+	return nil
+}
+func (t *oogTracer) CaptureEnd(output []byte, gasUsed uint64, d time.Duration, err error) error {
+	return nil
 }
 
 func runEvm(q *EvmReq) (r EvmRes) {
@@ -79,7 +103,9 @@ func runEvm(q *EvmReq) (r EvmRes) {
 	val, _ := new(big.Int).SetString(q.Value, 10)
 	origin := common.HexToAddress(q.Origin)
 	ctx := vm.Context{
-		CanTransfer: func(db vm.StateDB, addr common.Address, amount *big.Int) bool { return db.GetBalance(addr).Cmp(amount) >= 0 },
+		CanTransfer: func(db vm.StateDB, addr common.Address, amount *big.Int) bool {
+			return db.GetBalance(addr).Cmp(amount) >= 0
+		},
 		Transfer: func(db vm.StateDB, sender, recipient common.Address, amount *big.Int) {
 			db.SubBalance(sender, amount)
 			db.AddBalance(recipient, amount)
@@ -91,7 +117,8 @@ func runEvm(q *EvmReq) (r EvmRes) {
 		Time: new(big.Int).SetUint64(q.Time), Difficulty: big.NewInt(7), GasLimit: q.Gas, GasPrice: new(big.Int),
 	}
 	var tracer *vm.StructLogger
-	vcfg := vm.Config{}
+	oogT := &oogTracer{}
+	vcfg := vm.Config{Debug: true, Tracer: oogT}
 	if os.Getenv("VERIF_EVM_TRACE") != "" {
 		tracer = vm.NewStructLogger(&vm.LogConfig{DisableMemory: true, DisableStack: false, DisableStorage: true})
 		vcfg.Debug, vcfg.Tracer = true, tracer
@@ -116,6 +143,7 @@ func runEvm(q *EvmReq) (r EvmRes) {
 		}
 	}
 	r.Ret = hex.EncodeToString(ret)
+	r.InnerOog = oogT.oog
 	root, _ := st.Commit(true)
 	r.Root = hex.EncodeToString(root[:])
 	lb, _ := rlp.EncodeToBytes(st.Logs())
@@ -163,7 +191,9 @@ func main() {
 	var t *trie.Trie
 	var sdisk *ethdb.MemDatabase
 	var sdb *state.StateDB
-	saddr := func(k string) common.Address { return common.BytesToAddress(append([]byte("verif-account-"), unhex(k)...)) }
+	saddr := func(k string) common.Address {
+		return common.BytesToAddress(append([]byte("verif-account-"), unhex(k)...))
+	}
 	for {
 		line, err := in.ReadBytes('\n')
 		if len(line) == 0 && err != nil {
